@@ -19,7 +19,7 @@ func init() {
 func c19Scenarios(tier string) []e3Scenario {
 	var out []e3Scenario
 	q := c19Q()
-	cfgs := []c19Cfg{{"plain", false}, {"filters", false}, {"cors", false}, {"options", false}, {"encoding", false}, {"filters", true}, {"plain", true}}
+	cfgs := []c19Cfg{{Kind: "plain"}, {Kind: "filters"}, {Kind: "cors"}, {Kind: "options"}, {Kind: "encoding"}, {Kind: "filters", JSR: true}, {Kind: "plain", JSR: true}}
 	if tier == "thorough" {
 		cfgs = c19Cfgs(tier)
 	}
@@ -63,7 +63,7 @@ func c19Scenarios(tier string) []e3Scenario {
 				}
 				fresh := make([]string, len(set))
 				for k, i := range set {
-					fresh[k] = c19Do(c19Build(cfg), q[i], serve)
+					fresh[k] = c19Do(c19Build(cfg.ref()), q[i], serve)
 				}
 				out = append(out, e3Scenario{Name: fmt.Sprintf("%s/jsr=%v/serve=%v/%v", cfg.Kind, cfg.JSR, serve, set), Bound: bound, New: func() *e3Inst {
 					c := c19Build(cfg)
